@@ -86,6 +86,14 @@ def run(ck, w):
         seps = [e for e in ap.events if e.bb in ap.live and e.name == "globset::GlobBuilder::<'a>::literal_separator"]
         if len(adds) != 2 or len(news) != 2:
             problems.append("expected two globs per pattern, found %d add / %d new" % (len(adds), len(news)))
+        # both globs are added for EVERY pattern: each add lies on every path to the Ok return
+        ok_rets = [bb for bb, j, st in rules.agg_sites(ap, "std::result::Result", "Ok") if st["pl"]["l"] == 0 and not st["pl"]["p"]]
+        if not ok_rets:
+            problems.append("no Ok(()) return found")
+        for a_ in adds:
+            for rb in ok_rets:
+                if not ap.must_pass_nodes({a_.bb}, rb):
+                    problems.append("a glob is added only for some patterns (a GlobSetBuilder::add can be bypassed)")
         if len(seps) != len(news) or not all(len(e.args) > 1 and e.args[1].get("int") == "1" for e in seps):
             problems.append("not every glob is built with literal_separator(true)")
         other_opts = [e for e in ap.events if e.bb in ap.live and e.name.startswith("globset::GlobBuilder::<'a>::") and
